@@ -148,8 +148,13 @@ func (p *BundlePropertyExperimenter) UnmarshalBinary(data []byte) error {
 	n += 4
 	p.ExperimenterType = binary.BigEndian.Uint32(data[n:])
 	n += 4
-	if len(data) < int(p.Length) {
-		p.data = data[n:]
+	if int(p.Length) < n || len(data) < int(p.Length) {
+		return errors.New("the length of the BundlePropertyExperimenter is out of range")
+	}
+	// the property owns a copy of its experimenter data
+	if int(p.Length) > n {
+		p.data = make([]byte, int(p.Length)-n)
+		copy(p.data, data[n:p.Length])
 	}
 	return nil
 }
